@@ -42,6 +42,9 @@ fn main() {
         i += 2;
     }
     mwv::mw::install_panic_recorder();
+    if let (Some(path), false) = (&out, child_report) {
+        mwv::report::set_stream(&format!("{}.partial", path));
+    }
     let rep = match engines::run(&engine, &ctx) {
         Some(r) => r,
         None => {
